@@ -347,6 +347,7 @@ class Check:
     def main(self, argv=None):
         """run the check; a crash of the harness itself (e.g. the implementation did something the runner or the
         driver cannot even represent) is reported as a broken correspondence, not as a silent non-zero exit"""
+        self._start_watchdog(argv)
         try:
             return self._main(argv)
         except SystemExit:
@@ -367,6 +368,34 @@ class Check:
                 pass
             print(f'VIOLATION property={self.ident} replay={path} no-failing-input-found')
             return 1
+
+    def _start_watchdog(self, argv):
+        """a check that does not come back is reported, not left hanging: a change that makes the implementation
+        (or the harness driving it) wait for ever must end in a VIOLATION line like any other broken
+        correspondence.  Limits are 20-40 times the normal run time (VERIF_QUICK_LIMIT / VERIF_THOROUGH_LIMIT, s)."""
+        import faulthandler
+        import threading
+        args = list(sys.argv[1:] if argv is None else argv)
+        tier = args[args.index("--tier") + 1] if "--tier" in args and args.index("--tier") + 1 < len(args) else "quick"
+        limit = float(os.environ.get("VERIF_THOROUGH_LIMIT", 6 * 3600) if tier == "thorough"
+                      else os.environ.get("VERIF_QUICK_LIMIT", 2400))
+
+        def fire():
+            try:
+                self.seed = getattr(self, 'seed', 0)
+                self.tier = getattr(self, 'tier', tier)
+                sys.stderr.write(f"watchdog: check {self.ident} did not finish within {limit:.0f} s\n")
+                faulthandler.dump_traceback(file=sys.stderr, all_threads=True)
+                path = self.write_replay('no-failing-input-found', None,
+                                         {'no_longer_checks': f'correspondence corr:{self.ident}: the check did not finish within '
+                                                              f'{limit:.0f} s (the implementation or the harness driving it hangs)'})
+                sys.stdout.write(f'VIOLATION property={self.ident} replay={path} no-failing-input-found\n')
+                sys.stdout.flush()
+            finally:
+                os._exit(1)
+        t = threading.Timer(limit, fire)
+        t.daemon = True
+        t.start()
 
     def _main(self, argv=None):
         ap = argparse.ArgumentParser()
@@ -661,7 +690,7 @@ def _stop_coverage(c, check):
                             lines = set(range(node.lineno, node.end_lineno + 1))
                             st = stmts & lines
                             ms = missing & lines
-                            per[node.name] = {"statements": len(st), "missing_lines": sorted(ms)[:12],
+                            per[node.name] = {"statements": len(st), "missing_lines": sorted(ms)[:60],
                                               "percent": round(100.0 * (len(st) - len(ms)) / max(1, len(st)), 1)}
                     entry["anchored_functions"] = per
                 out[rel] = entry
